@@ -19,6 +19,7 @@ Clauses (property C09):
                object was destructed: a failing or self-removing heart beat does not disturb the round of the others
   turns        within one loop iteration a user gets at most ONE command served (process_input once, the command once):
                a user with a backlog cannot keep the others waiting
+  preload      every file the master's epilog() names is handed to preload(), in order, also after one failed to load
   disconnect   the driver tells a user object `net_dead` only when that user's own client went away: events of other
                connections (hang-ups, errors, accepts arriving in the same poll) never cost a user its connection
 -/
@@ -33,6 +34,7 @@ structure Expect where
   closed : List Nat := []                -- clients the script closes
   settle : Bool := true                  -- the history ends with enough idle cycles / ticks to drain everything
   coCutoff : Nat := 0                    -- cycle of the second-to-last tick: call_outs scheduled later may stay pending
+  preloads : List String := []           -- files epilog() hands to preload_objects(), in order
 
 def isCrash : Ev → Bool
   | .crash _ => true
@@ -71,7 +73,7 @@ def hbExpected : Option Oid → List Oid → List Ev → List Oid
       (match cur with
        | some o => hbExpected none (on.erase o) es
        | none => hbExpected none on es)
-    | .tCmd _ _ | .tInput _ _ | .tIt _ _ _ | .tPrompt _ | .tCo _ _ | .tReset _ | .tCleanup _ | .tConnect _ | .tLogon _ | .cycle _ => hbExpected none on es
+    | .tCmd _ _ | .tInput _ _ | .tIt _ _ _ | .tPrompt _ | .tEpilog | .tPreload _ | .tCo _ _ | .tReset _ | .tCleanup _ | .tConnect _ | .tLogon _ | .cycle _ => hbExpected none on es
     | _ => hbExpected cur on es
 
 def finalHbs (es : List Ev) : Option (List String) :=
@@ -206,6 +208,14 @@ def turnsOk : List Oid → List Oid → List Ev → List String
 
 def clauseTurns (es : List Ev) : List String := turnsOk [] [] es
 
+def preloaded (es : List Ev) : List String :=
+  es.filterMap (fun e => match e with | .tPreload n => some n | _ => none)
+
+/-- clause `preload`: every file epilog() returned is handed to the master's preload(), in order, exactly once - a file
+    that fails to load does not stop the others -/
+def clausePreload (x : Expect) (es : List Ev) : List String :=
+  if preloaded es == x.preloads then [] else [s!"preload loaded={preloaded es} expected={x.preloads}"]
+
 def judgeEv (x : Expect) (es : List Ev) : List String :=
   if !(clauseCrash es).isEmpty then clauseCrash es else
   let ex := hasExit es
@@ -245,6 +255,6 @@ def judgeEv (x : Expect) (es : List Ev) : List String :=
     | some n =>
       let live := (liveUsers [] es).length
       if n > live then [s!"leaked-conn slots={n} live-users={live}"] else []
-  v1 ++ v2 ++ v3 ++ v4 ++ v5 ++ v6 ++ v7 ++ clauseRefs es ++ clauseDisconnect x es ++ clauseHbSchedule es ++ clauseTurns es
+  v1 ++ v2 ++ v3 ++ v4 ++ v5 ++ v6 ++ v7 ++ clauseRefs es ++ clauseDisconnect x es ++ clauseHbSchedule es ++ clauseTurns es ++ clausePreload x es
 
 end NV.C09
